@@ -30,9 +30,10 @@ BOUNDS = {"quick": "all base states x 5 closing routes x both roles, post-close 
 sb = H.stateless_block
 
 ROUTES = ["close_connection", "close_connection-last-max", "rx-goaway", "rx-ping+goaway", "rx-settings+goaway",
-          "err-frame-size", "err-protocol", "err-flow-control"]
+          "err-frame-size", "err-protocol", "err-flow-control", "err-state-machine"]
 MUST_RAISE = ("send_headers", "send_data", "end_stream", "increment_flow_control_window", "push_stream", "ping",
-              "reset_stream", "update_settings", "advertise_alternative_service", "prioritize")
+              "reset_stream", "update_settings", "advertise_alternative_service", "prioritize", "initiate_connection",
+              "initiate_upgrade_connection")
 
 
 def base_conn(client, name):
@@ -94,6 +95,15 @@ def close_it(conn, client, route):
         data = wire.settings([(4, 70000)]).serialize() + wire.goaway(0, 0, b"bye").serialize()
     elif route == "err-frame-size":
         data = wire.raw(wire.PING, 0, 0, b"short").serialize()
+    elif route == "err-state-machine":
+        # an input the CONNECTION state machine itself refuses: a server receiving PUSH_PROMISE, a client that has sent no
+        # request receiving DATA
+        if not client:
+            data = wire.push_promise(1, 2, sb(H.REQ)).serialize()
+        elif conn.state_machine.state.name == "IDLE":
+            data = wire.data(1, b"x").serialize()
+        else:
+            return False
     elif route == "err-protocol":
         data = wire.raw(wire.WINDOW_UPDATE, 0, 0, b"\0\0\0\0").serialize()
     else:
@@ -133,6 +143,8 @@ class Spec:
         calls.append(("update_settings", "update_settings", ({4: 100},), {}))
         calls.append(("altsvc", "advertise_alternative_service", (b"h2=\":1\"",), {"origin": b"example.com"}))
         calls.append(("close_again", "close_connection", (2,), {}))
+        calls.append(("initiate", "initiate_connection", (), {}))
+        calls.append(("initiate_upgrade", "initiate_upgrade_connection", (), {}))
         self.calls = {c[0]: c for c in calls}
         fr = {}
         for sid in (1, 2, 3):
